@@ -268,7 +268,7 @@ def run(ctx):
     cases = corpus_cases("C01", STREAM) + list(gen_cases(ctx))
     lines = [infer_line(c) if c["op"] == "infer_type" else var_line(c) for c in cases]
     outs = ctx.driver.eval(lines)
-    mism = []
+    mism, per_op = [], {}
     for case, line in zip(cases, outs):
         st.count(f"{STREAM}:{case['op']}")
         got = observe(case)
@@ -284,8 +284,8 @@ def run(ctx):
             if case["op"] != "infer_type" and fragile(case, got, model):
                 st.skipped_fragile += 1
                 continue
-            mism.append({"case": case, "impl": got, "model": model,
-                         "what": f"{case['op']}: implementation {got}, model {model}"})
-            if len(mism) > 8:
-                break
+            per_op[case["op"]] = per_op.get(case["op"], 0) + 1
+            if per_op[case["op"]] <= 3:          # a defect of one function must not hide the others
+                mism.append({"case": case, "impl": got, "model": model,
+                             "what": f"{case['op']}: implementation {got}, model {model}"})
     return mism
